@@ -57,6 +57,9 @@ CHECKS = {
  "C19": dict(level="exploration", design="3/C19", technique="js/wasm build of a monitor program run under Node with recording JavaScript stubs: shadow-model comparison of drawCell calls, callback table sweep, exhaustive lifecycle sequences with step-counted deadlock detection",
     text="Compiles cmd/wasmchk for js/wasm against /repo (a compile error in tcell is the violation), then under Node: all 340 sequences over Suspend/Resume/SetSize/Fini up to length 4 with a Size() probe after each call (blocked = not finished after 2000 yields on the single thread); every WebKeyNames name x 16 modifier sets, mouse handlers x which x modifiers x 9 flag settings, paste/focus; seeded draw histories compared cell by cell and per-Show drawCell target sets.",
     note="The real DOM code of tcell.js is not executed; mouse expectations restricted to unambiguous cases."),
+ "C06": dict(level="fault_enumeration", design="3/C06", technique="fault enumeration over queue fill levels, reader states and concurrent actors at shutdown, in worker child processes, with a structural goroutine-dump classifier (deadlock) and a draw step counter (livelock); seeded schedule controller at build-tagged schedule points",
+    text="Every event-queue fill 0..cap, every chunk-queue fill 0..cap with the main loop parked, reader parked on the send, reader held between Read and send by a gate, Read errors; x Fini / Suspend / Suspend-Resume-Fini; x none/poller/poster/Show loop/resize storm; plus seeded random schedules. Verdict per scenario: returned, or structural deadlock/livelock witness; post-conditions after Fini, Suspend and Resume.",
+    note="Liveness restated as bounded progress with structural witnesses; watchdog expiry alone is inconclusive; one terminal entry (xterm-256color) - the shutdown path does not depend on the entry."),
 }
 PENDING = {}
 
